@@ -121,6 +121,14 @@ pub fn move_pairs(thorough: bool, seed: u64) -> Vec<(String, Pd, Pd, bool)> {
     v.push(("trefoil~renumbered".into(), t.clone(), renumber(&t, s), true));
     v.push(("trefoil~reordered".into(), t.clone(), reorder(&t, 1 + s % 2), true));
     v.push(("trefoil~reversed".into(), t.clone(), reverse_orientation(&t), true));
+    // pure rotations of the crossing list (every crossing gets to be listed first)
+    for r in 1..3 {
+        v.push((format!("trefoil~rotated{}", r), t.clone(), (0..3).map(|i| t[(i + r) % 3]).collect(), true));
+    }
+    v.push(("figure8~rotated2".into(), figure8(), (0..4).map(|i| figure8()[(i + 2) % 4]).collect(), true));
+    // a diagram with an over-only component against itself renumbered / reordered
+    let oc: Pd = vec![[8, 4, 2, 5], [3, 6, 4, 1], [5, 2, 6, 3], [1, 9, 7, 10], [7, 9, 8, 10]];
+    v.push(("trefoil+over-circle~renumbered".into(), oc.clone(), renumber(&oc, s), false));
     v.push(("hopf~reversed-both".into(), hopf(), reverse_orientation(&hopf()), false));
     v.push(("hopf~R1".into(), hopf(), r1(&hopf(), 1 + s % 4, s % 4), false));
     v.push(("kink~kink".into(), vec![[1, 2, 2, 1]], vec![[1, 1, 2, 2]], true));
@@ -399,6 +407,13 @@ pub fn configs_c03(tier: crate::registry::Tier, _seed: u64) -> Vec<crate::regist
             }
         }
     }
+    // 6-8 crossing knots: (h,t) in [-1,1]^2 (thorough [-2,2]^2)
+    for (name, pd) in khref::coeff_catalogue() {
+        for mirror in [false, true] {
+            v.push(entry(Coefficients { name, pd: pd.clone(), mirror, reduced: false, bound: if th { 2 } else { 1 } }, 60, if th { 1800.0 } else { 200.0 }));
+        }
+        v.push(entry(Coefficients { name, pd: pd.clone(), mirror: false, reduced: true, bound: 2 }, 60, if th { 1800.0 } else { 200.0 }));
+    }
     v
 }
 
@@ -548,6 +563,15 @@ pub fn configs_c06(tier: crate::registry::Tier, seed: u64) -> Vec<crate::registr
             continue;
         }
         v.push(entry(Lee { name: name.to_string(), a: pd.clone(), b: vec![], mode: LeeMode::LeeRank, reduced: false, bound: 1 }, 10, 120.0));
+    }
+    // 8-9 crossing knots (and mirrors, through the PD-level mirror = library mirror): cycles and ss for c in {2,3,5,7}
+    for (name, pd) in khref::cycle_catalogue() {
+        let _ = th;
+        for reduced in [false, true] {
+            v.push(entry(Lee { name: name.to_string(), a: pd.clone(), b: vec![], mode: LeeMode::CanonCycles, reduced, bound: 2 }, 30, 150.0));
+        }
+        v.push(entry(Lee { name: name.to_string(), a: pd.clone(), b: vec![], mode: LeeMode::LeeRank, reduced: false, bound: 1 }, 10, 120.0));
+        v.push(entry(Lee { name: format!("{}~renumbered", name), a: pd.clone(), b: renumber(&pd, seed as usize), mode: LeeMode::SsPairs, reduced: false, bound: 7 }, 20, 200.0));
     }
     for (name, a, b, knot) in move_pairs(th, seed) {
         if !knot || (!th && a.len().max(b.len()) > 4) {
